@@ -123,6 +123,13 @@ Theorem C12_lookup_not_discovered :
 Proof. exact lookup_not_discovered. Qed.
 Print Assumptions C12_lookup_not_discovered.
 
+(* the model's `relative_to` merges the nil result of typedName.child into "not relative"; that case never
+   occurs: a name that has the type set's name as a proper prefix always has a relative name *)
+Theorem C12_relative_total :
+  forall n p, is_parent p n = true -> relative_to n p <> None.
+Proof. exact relative_to_total. Qed.
+Print Assumptions C12_relative_total.
+
 (* Non-vacuity: a concrete well-formed configuration and history over a chain of depth 3 and a type-set
    loader below the static loader — a miss, a definition after the miss, equal and different
    redefinitions, shadowing by an ancestor, relative names, discovery. *)
